@@ -168,7 +168,44 @@ def _sound_source(src: int, fail: int) -> bool:
     return result(ok, reached)
 
 
+# ---- field merging: three same-key fields, conflicts possibly only between the later two (spec 5.3.2 FieldsInSetCanMerge)
+SUBSEL = ("name", "x: name", "x: age", "x: best { name }", "x: best { age }", "x: score(scale: 1)", "x: score(scale: 2)", "x: score", "id")
+_SUBKEY = {"name": None, "id": None, "x: name": ("name", ""), "x: age": ("age", ""), "x: best { name }": ("best", ""), "x: best { age }": ("best", ""),
+           "x: score(scale: 1)": ("score", "1"), "x: score(scale: 2)": ("score", "2"), "x: score": ("score", "")}
+
+
+def _merge_triples(a: int, b: int, c: int, nested: bool) -> bool:
+    """
+    pre: 0 <= a < len(SUBSEL) and 0 <= b < len(SUBSEL) and 0 <= c < len(SUBSEL)
+    pre: shard_of(a)
+    post: _
+    """
+    A, B, C = pick(a, SUBSEL), pick(b, SUBSEL), pick(c, SUBSEL)
+    NE = True if nested else False
+    with untraced():
+        if NE:
+            text = "{ me { %s } me { %s } me { %s } }" % (A, B, C)
+        else:
+            text = "{ me { %s %s %s } }" % (A, B, C)
+        keys = {_SUBKEY[x] for x in (A, B, C) if _SUBKEY[x] is not None}
+        conflict = len(keys) > 1
+        doc = parse(text)
+        schema = G.build_real_schema()
+        errors = validate_ast(schema, doc).errors
+        ok = bool(errors) == conflict
+        if ok and not conflict:
+            ok, _ = check_document(text, {})
+    return result(ok, conflict)
+
+
 CONDITIONS = [
+    Cond(
+        name="merge_triples", fn=_merge_triples, quick=100, thorough=200, per_path=60, shards_quick=9, shards_thorough=9,
+        bound="three same-response-key selections drawn from 9 variants (different fields, different arguments, composite sub-selections), flat in one selection set or spread over three merged parent fields: "
+              "validation reports a conflict exactly when two of them disagree on field name or arguments - including when only the 2nd and 3rd disagree",
+        symbolic={"a,b,c": "choice: the three selections", "nested": "choice: flat or through merged parents"},
+        assumptions=["reference: FieldsInSetCanMerge restricted to one parent type (spec 5.3.2)"], witness={"a": 1, "b": 1, "c": 2, "nested": True},
+    ),
     Cond(
         name="sound_source", fn=_sound_source, quick=100, thorough=200, per_path=60,
         bound="%d documents (%d valid templates + %d hand-written adversarial ones: duplicate fields with list / object / null / variable arguments, one variable at differently typed positions, "
